@@ -7,7 +7,7 @@ From Coq Require Import NArith ZArith List Bool.
 Import ListNotations.
 From PV Require Import Yanny.Bytes Yanny.BytesFacts Yanny.Types Yanny.Parse Yanny.Render
   Yanny.TokenFacts Yanny.RowFacts Yanny.TypeFacts Yanny.DocFacts Yanny.LayoutFacts Yanny.ScanFacts Yanny.FileFacts
-  Yanny.RoundTrip Yanny.LayoutFile Yanny.LayoutRow Yanny.LayoutFile2 Yanny.Interleave C02.Model C02.Proofs.
+  Yanny.RoundTrip Yanny.LayoutFile Yanny.LayoutRow Yanny.LayoutFile2 Yanny.Interleave Yanny.ContFile C02.Model C02.Proofs.
 Open Scope N_scope.
 
 (* arbitrary runs of blanks / tabs between tokens *)
@@ -147,8 +147,9 @@ Proof. exact row_is_core_line. Qed.
 Print Assumptions C02_rendered_row_is_core_line.
 
 (* a data row in ANY admissible token layout -- arbitrary blank runs between tokens and inside array braces,
-   every string bare or double-quoted where its content allows, any letter case of the name -- is processed
-   exactly like the row of its cells *)
+   every scalar bare, double-quoted, brace-wrapped or (empty string) written as the empty double brace where its
+   content allows, array elements bare or quoted, any letter case of the name -- is processed exactly like the
+   row of its cells *)
 Theorem C02_row_layout_independence : forall (sy : symtab) st name (cols : tcols) cells,
   name <> [] -> forallb is_word name = true -> assoc (upper name) sy = Some cols ->
   cells_ok cells = true ->
@@ -163,21 +164,33 @@ Print Assumptions C02_row_layout_independence.
    Proved at FILE level (C02_layout_independence_partial): for every document of the domain doc_ok, every
    ordering of its data rows that keeps each table's rows in order (rows of different tables interleaved),
    and every text obtained from that file by
-     - writing any data row in any admissible token layout (blank runs, bare / quoted strings, padding inside
-       array braces, any letter case of the table name),
+     - writing any data row in any admissible token layout (blank runs, bare / quoted / brace-wrapped strings,
+       the empty double brace, padding inside array braces, any letter case of the table name),
      - indentation, trailing blanks and a trailing comment on every keyword / data line,
      - comment lines and blank lines inserted anywhere between the items (also around the typedef blocks),
    the text-mode and the binary read return exactly the document's meaning; CRLF line ends read in text mode
    change nothing (C02_crlf_file_independence).
+   Continuation lines compose with it one at a time (C02_continuation_file: a file with one more continuation
+   reads like the file with a blank instead).
    NOT composed into the file-level theorem (proved at token / pre-pass level above, exercised by every run of
-   the correspondence): brace-wrapped strings and the { { } } form inside rows, continuation lines, [n] / <n>
-   and any other layout inside typedef blocks, char[] columns, typedefs and pairs in other positions. *)
+   the correspondence): [n] / <n> and any other layout inside typedef blocks, char[] columns, typedefs and
+   pairs in other positions, blanks other than SP / TAB. *)
 Theorem C02_layout_independence_partial : forall d tws trs Ds,
   doc_ok d = true -> map fst tws = d_tables d -> tws_ok (d_enums d) tws ->
   trs_ok d trs -> idec (sy_of (d_enums d) tws) Ds (items_gen d tws trs) ->
   exists p, sem d = Some p /\ parse (items_text Ds) = Some p /\ parse_binary (items_text Ds) = Some p.
 Proof. exact layout_file_general. Qed.
 Print Assumptions C02_layout_independence_partial.
+
+(* backslash continuation at file level (CR-free text): one more continuation between two tokens, anywhere after
+   text whose earlier backslashes are harmless, reads like a blank *)
+Theorem C02_continuation_file : forall A w1 w2 B,
+  cont_okb A = true -> all_ws w1 = true -> all_ws w2 = true -> mem NL w2 = false -> head_not_ws B ->
+  mem CR (A ++ BSL :: w1 ++ NL :: w2 ++ B) = false ->
+  parse (A ++ BSL :: w1 ++ NL :: w2 ++ B) = parse (A ++ SP :: w2 ++ B) /\
+  parse_binary (A ++ BSL :: w1 ++ NL :: w2 ++ B) = parse_binary (A ++ SP :: w2 ++ B).
+Proof. exact continuation_file. Qed.
+Print Assumptions C02_continuation_file.
 
 (* rows of different tables interleaved, nothing else changed *)
 Theorem C02_interleaved_file : forall d tws trs,
